@@ -5,10 +5,13 @@
     the checksum is the specification's; a stored lead byte is never 0xE5.  Short names stay pairwise different:
     the entry create / makedir / move append to ANY directory carries an alias whose stored 11 bytes show the alias again
     and differ from every short name already there (C05_short_names_stay_unique), is never '.' or '..' and consists of
-    characters above the space other than the dot (C05_alias_stored).  Whole-history well-formedness is judged by the
+    characters above the space other than the dot (C05_alias_stored).  What makedir writes into a new directory is, whenever it
+    succeeds, a '.' entry naming the directory's own first cluster — a cluster that was free — and a '..' entry naming the
+    parent's first cluster (0 for the root), both directories without long names, and the entry added to the parent names the
+    same cluster, is a directory and has size 0 (C05_makedir_writes_dots).  Whole-history well-formedness is judged by the
     independent fsck on the real images. *)
 From Coq Require Import ZArith List Bool Sorted.
-From PyFatV Require Import Base.Bytes Base.PyEnv Gen.Pure Model.Codec Model.Dir Proofs.Names Proofs.FatCodec Proofs.DirCodec Model.FS Proofs.Alias.
+From PyFatV Require Import Base.Bytes Base.PyEnv Gen.Pure Model.Codec Model.Dir Proofs.Names Proofs.FatCodec Proofs.DirCodec Model.FS Proofs.Alias Proofs.Dots.
 Import ListNotations.
 Open Scope Z_scope.
 
@@ -77,3 +80,16 @@ Example C05_alias_example :
   make_8dot3 (mkName [] None None [82;69;65;68;77;69] [84;88;84] false)
              [mkDirent [82;69;65;68;77;69;32;32;84;88;84] 32 0 0 0 0 0 0 0 0 0 0 None] = Ok ([82;69;65;68;77;69;126;49], [84;88;84]).
 Proof. vm_compute. reflexivity. Qed.
+
+Theorem C05_makedir_writes_dots : forall s path t s',
+  op_makedir s path false t = Ok s' -> 0 <= s_hint s -> max_cluster s < 4294967296 -> 2 <= Gen.MIN_DATA_CLUSTER (ft s) ->
+  0 < bytes_per_cluster (s_p s) ->
+  exists base es e c dot dotdot s1 s2 s3,
+    eref_is_dir base = true /\ read_dir s (eref_loc s base) = Ok es /\
+    write_dir s1 c [dot; dotdot] = Ok s2 /\ write_dir s2 (eref_loc s base) (es ++ [e]) = Ok s3 /\ flush_fat s3 = Ok s' /\
+    2 <= c <= max_cluster s /\ nthZ (s_fat s) c = Gen.FREE_CLUSTER (ft s) /\
+    d_name dot = dot_name /\ get_cluster dot = c /\ is_dir dot = true /\ d_size dot = 0 /\ d_lfn dot = None /\
+    d_name dotdot = dotdot_name /\ get_cluster dotdot = parent_cluster base /\ is_dir dotdot = true /\ d_lfn dotdot = None /\
+    get_cluster e = c /\ is_dir e = true /\ d_size e = 0.
+Proof. exact makedir_writes_dots. Qed.
+Print Assumptions C05_makedir_writes_dots.
